@@ -326,11 +326,11 @@ kf("C07", "C07-glsl-f16-vector-as-f32", "the GLSL backend declares vecN<f16> / m
 kf("C07", "C07-hlsl-f16-store-width", "a store of an f16 scalar to a storage buffer is emitted as the untemplated `buf.Store(addr, value)` (a 4-byte uint store; loads correctly use `Load<half>`): `enable f16; struct S { a: f16, b: f16 } ... s.a = 1.5h;` becomes `s.Store(0, 1.5h);`, which converts the value to uint and overwrites the 4 bytes at the offset, i.e. also the neighbouring member",
    ["C07|hlsl-address|store: Store of # bytes to a leaf of # bytes (half)|F3x/*"])
 kf("C07", "C07-attr-hex-literal-ignored", "@align / @size whose argument is a hexadecimal literal is silently ignored (the literal text is read with a decimal scan, which yields 0 = attribute absent): `struct S { a: f32, @align(0x10) b: f32 }` places b at offset 4 (span 8) where WGSL has offset 16 (size 32); wrong in the IR, inherited by every backend",
-   ["C07|ir-layout|*|F3x/XS/*:hex)*", "C07|ir-layout|*|F3x/XS/*:hex-u)*", "C07|ir-layout|*|F3x/XS/*:hex-upper)*"])
+   ["C07|ir-layout|*|F3x/XS/*:hex)*", "C07|ir-layout|*|F3x/XS/*:hex-u)*", "C07|ir-layout|*|F3x/XS/*:hex-upper)*"], "fixed:03e9175")
 kf("C07", "C07-attr-const-expression-ignored", "@align / @size whose argument is any const-expression other than a single decimal literal (`4 * 4`, `15 + 1`, `8 << 1u`, `u32(16)`, a module-scope `const` declared before or after the struct, typed or not, or an expression over one) is silently ignored: `const K = 16; struct S { a: f32, @align(K) b: f32 }` places b at offset 4 where WGSL has 16; wrong in the IR, inherited by every backend",
    ["C07|ir-layout|*|F3x/XS/*:mul)*", "C07|ir-layout|*|F3x/XS/*:add)*", "C07|ir-layout|*|F3x/XS/*:shift)*", "C07|ir-layout|*|F3x/XS/*:conv)*", "C07|ir-layout|*|F3x/XS/*:const)*",
     "C07|ir-layout|*|F3x/XS/*:const-after)*", "C07|ir-layout|*|F3x/XS/*:const-u32)*", "C07|ir-layout|*|F3x/XS/*:const-i32)*", "C07|ir-layout|*|F3x/XS/*:const-expr)*",
-    "C07|ir-layout|*|F3x/XO/*:const)*", "C07|ir-layout|*|F3x/XO/*:const-after)*", "C07|ir-layout|*|F3x/XO/*:const-expr)*"])
+    "C07|ir-layout|*|F3x/XO/*:const)*", "C07|ir-layout|*|F3x/XO/*:const-after)*", "C07|ir-layout|*|F3x/XO/*:const-expr)*"], "fixed:03e9175")
 kf("C07", "C07-hlsl-missing-constructor-helper", "loading an array of structs (or array of arrays/matrices) from a storage buffer calls ConstructI0_/Constructarray2_* helper functions that are never emitted",
    ["C07|hlsl|F3/*|*|malformed-output:call of undeclared function \"Construct*"])
 kf("C07", "C07-hlsl-uniform-matCx2-in-nested-struct", "a matCx2 member of a struct nested in a uniform struct is read through GetMat<m>On<Struct> helpers that are never emitted; arrays of matCx2 in uniform space index a split matrix value",
